@@ -93,6 +93,22 @@ static void run_case(CaseCtx& c)
         c.obs.params.str("witness", witness);
     }
     ProblemObjs po(ps);
+    // process history: both operators have been applied before, in this process, on another (small) grid with another number
+    // of angles and the across-origin closure -- nothing of that may survive in the library (function-local statics)
+    {
+        GridOpts dg;
+        dg.nr_min = 5; dg.nr_max = 7; dg.nth_min = 4; dg.nth_max = 12; dg.min_circ = 2; dg.min_radial = 3;
+        dg.Rmax = go.Rmax;
+        GridSpec ds = gen_grid(rng, dg);
+        PolarGrid dgrid = ds.make();
+        LevelCache dlc(dgrid, *po.prof, *po.geo, true, true);
+        Vector<double> dx = random_vector(rng, dgrid.numberOfNodes(), 0), dz(dgrid.numberOfNodes()), dr(dgrid.numberOfNodes());
+        assign(dz, 0.0);
+        ResidualGive drg(dgrid, dlc, *po.geo, *po.prof, false, 1);
+        ResidualTake drt(dgrid, dlc, *po.geo, *po.prof, false, 1);
+        drg.computeResidual(dr, dz, dx);
+        drt.computeResidual(dr, dz, dx);
+    }
     PolarGrid grid = gs.make();
     const int n = grid.numberOfNodes(), nr = grid.nr(), nt = grid.ntheta();
     LevelCache lc(grid, *po.prof, *po.geo, true, true);
